@@ -31,8 +31,19 @@ class cell_scale:
         SCALE_POLICY['scale'] = self.old
 
 
-def _axis(rng, n, lo, descending, uniform):
-    """n strictly monotonic coordinate values and n+1 enclosing edges (values not at edge midpoints)."""
+def _axis(rng, n, lo, descending, uniform, quantum=None):
+    """n strictly monotonic coordinate values and n+1 enclosing edges (values not at edge midpoints).
+
+    quantum: values are whole multiples of this number (1 for integer-typed coordinate variables, 0.25 for float32
+    ones), so that the variable can be stored in that type without rounding and midpoints stay exact."""
+    if quantum is not None:
+        steps = numpy.full(n, float(rng.integers(1, 4))) if uniform else rng.integers(1, 4, size=n).astype(float)
+        edges = (numpy.floor(lo / quantum) + 0.5 + numpy.concatenate([[0.0], numpy.cumsum(steps)])) * quantum
+        values = edges[:-1] + 0.5 * quantum
+        if descending:
+            edges = edges[::-1].copy()
+            values = values[::-1].copy()
+        return values, edges
     if uniform:
         steps = numpy.full(n, float(rng.uniform(0.3, 1.5)))
     else:
@@ -218,8 +229,10 @@ class CF1D(Model):
             lon_attrs['bounds'] = lon_name + '_bnds'
             variables[lat_name + '_bnds'] = xarray.DataArray(self.lat_bounds, dims=[ydim, 'nv'])
             variables[lon_name + '_bnds'] = xarray.DataArray(self.lon_bounds, dims=[xdim, 'nv'])
-        lat = xarray.DataArray(self.lat, dims=[ydim], attrs=lat_attrs)
-        lon = xarray.DataArray(self.lon, dims=[xdim], attrs=lon_attrs)
+        cdt = e.get('coord_dtype', 'float64')
+        assert numpy.array_equal(self.lat.astype(cdt), self.lat) and numpy.array_equal(self.lon.astype(cdt), self.lon)
+        lat = xarray.DataArray(self.lat.astype(cdt), dims=[ydim], attrs=lat_attrs)
+        lon = xarray.DataArray(self.lon.astype(cdt), dims=[xdim], attrs=lon_attrs)
         ds = xarray.Dataset()
         if e['coord_style'] == 'var':
             ds = ds.assign({lat_name: lat, lon_name: lon})
@@ -242,8 +255,13 @@ def make_cf1d(rng, *, ny=None, nx=None, bounds=None, coord_style=None, ident=Non
         ny, nx = max(ny, 2), max(nx, 2)
     coord_style = coord_style or pick(rng, ['dimcoord', 'dimcoord', 'coord', 'var'])
     ident = ident or pick(rng, ['units', 'standard_name', 'axis'])
-    lat, lat_edges = _axis(rng, ny, rng.uniform(-40, -10), chance(rng, 0.4), chance(rng, 0.4))
-    lon, lon_edges = _axis(rng, nx, lon_origin(rng), chance(rng, 0.3), chance(rng, 0.4))
+    # storage type of the coordinate variables: mostly float64; sometimes an integer type (whole degrees) or float32
+    coord_dtype, quantum = 'float64', None
+    if SCALE_POLICY['scale'] == 1.0 and chance(rng, 0.2):
+        coord_dtype = pick(rng, ['int16', 'int32', 'int64', 'float32'])
+        quantum = 0.25 if coord_dtype == 'float32' else 1
+    lat, lat_edges = _axis(rng, ny, rng.uniform(-40, -10), chance(rng, 0.4), chance(rng, 0.4), quantum)
+    lon, lon_edges = _axis(rng, nx, lon_origin(rng), chance(rng, 0.3), chance(rng, 0.4), quantum)
     m.lat, m.lon = lat, lon
     if bounds == 'none':
         lat_b = midpoint_bounds(lat.tolist())
@@ -262,6 +280,8 @@ def make_cf1d(rng, *, ny=None, nx=None, bounds=None, coord_style=None, ident=Non
         ydim, xdim = pick(rng, [('y', 'x'), ('nlat', 'nlon'), ('index', 'point')])
     m.encoding = dict(bounds=bounds, coord_style=coord_style, ident=ident, lat_name=lat_name, lon_name=lon_name,
                       ydim=ydim, xdim=xdim)
+    if coord_dtype != 'float64':
+        m.encoding['coord_dtype'] = coord_dtype
     if ident == 'units':
         m.encoding['lat_units'] = pick(rng, ['degrees_north', 'degree_north', 'degrees_N', 'degreeN'])
         m.encoding['lon_units'] = pick(rng, ['degrees_east', 'degree_E', 'degreesE'])
